@@ -26,7 +26,8 @@ EXHAUSTIVE = {"quick": False, "thorough": True}
 CMDS = ["get", "get_many", "set", "set_many", "delete", "delete_many", "delete_match", "scan", "get_match", "exists", "incr", "expire",
         "get_expire", "clear", "get_keys_count", "set_lock", "unlock", "is_locked", "get_bits", "incr_bits", "slice_incr", "set_add",
         "set_remove", "set_pop", "ping", "get_size", "set_raw", "get_raw"]
-ROUTE_CMDS = ["get", "set", "delete", "exists", "incr", "expire", "get_expire", "scan", "get_match", "delete_match", "set_lock", "get_bits", "set_add"]
+ROUTE_CMDS = ["get", "set", "delete", "exists", "incr", "expire", "get_expire", "scan", "get_match", "delete_match", "set_lock", "get_bits", "set_add",
+              "unlock", "is_locked", "incr_bits", "slice_incr", "set_remove", "set_pop", "get_size", "set_raw", "get_raw"]      # every key-routed command of the facade
 
 
 def _key(rng):
@@ -64,7 +65,7 @@ def gen_cases(rng, tier):
             if how == "prefix" and cmd == "ping":
                 continue  # ping is routed by its message, not by the key: it reaches the other (enabled) backend
             cases.append({"kind": "disabled", "cmd": cmd, "how": how})
-    for how in ["full", "get", "set", "none", "disabling"]:
+    for how in ["full", "get", "set", "none", "disabling", "late_full"]:      # late_full: one call while enabled (its result is stored), then disable(): the stored result must not be served
         for deco in ["cache", "early", "soft", "hit"]:
             cases.append({"kind": "decor", "how": how, "deco": deco, "calls": 3})
             if how in ("full", "disabling"):      # the same calls overlapping in time: a disabled cache must not merge them either
@@ -145,6 +146,15 @@ async def _issue_exact(cache, cmd, key):
     elif cmd == "set_lock": await cache.set_lock(key, "t", expire=5)
     elif cmd == "get_bits": await cache.get_bits(key, 1)
     elif cmd == "set_add": await cache.set_add(key, "m")
+    elif cmd == "unlock": await cache.unlock(key, "a")            # the token is itself a plausible key: routing must go by the key
+    elif cmd == "is_locked": await cache.is_locked(key)
+    elif cmd == "incr_bits": await cache.incr_bits(key, 1)
+    elif cmd == "slice_incr": await cache.slice_incr(key, 0, 10, maxvalue=5, expire=10)
+    elif cmd == "set_remove": await cache.set_remove(key, "b")
+    elif cmd == "set_pop": await cache.set_pop(key)
+    elif cmd == "get_size": await cache.get_size(key)
+    elif cmd == "set_raw": await cache.set_raw(key, 5)
+    elif cmd == "get_raw": await cache.get_raw(key)
     else: raise KeyError(cmd)
 
 
@@ -272,7 +282,11 @@ def run_impl(case):
                 if how == "full": cache.disable()
                 elif how == "get": cache.disable(Command.GET)
                 elif how == "set": cache.disable(Command.SET)
-                if how == "disabling":
+                if how == "late_full":
+                    await f(1)
+                    cache.disable()
+                    for _ in range(case["calls"] - 1): await f(1)
+                elif how == "disabling":
                     with cache.disabling():
                         await calls()
                 else:
@@ -359,7 +373,7 @@ def to_coq(case, obs):
         return C("CDisabled", k, obs["disabled"], res, bool(obs["called"]), bool(obs["raised"]))
     if kind == "decor":
         how = case["how"]
-        return C("CDecor", how in ("full", "disabling"), how == "get", how == "set", Nat(case["calls"]), Nat(obs["execs"]))
+        return C("CDecor", how in ("full", "disabling", "late_full"), how == "get", how == "set", Nat(case["calls"]), Nat(obs["execs"]))
     if kind == "ctl":
         ops = []
         for op in case["ops"]:
